@@ -1,6 +1,7 @@
 /-
-  C06 — witnesses: the known-finding region of the rule matrix is exact on the pinned tree, and the
-  full statements are false.  Kept apart from `Gozod.Proofs.C06`: if the library is repaired these
+  C06 — witnesses: the known-finding region of the rule matrix is exact (it is EMPTY since the seven repairs
+  of the rule-application code landed: the three matrix witnesses below hold vacuously and the full statements
+  are theorems of `Proofs/C06.lean`), and the full statement about type graphs is false.  Kept apart from `Gozod.Proofs.C06`: if the library is repaired these
   theorems stop checking ("finding no longer reproduces"), which is reported in the evidence and is
   not a violation.
 -/
@@ -47,35 +48,20 @@ theorem c06_order_witnesses :
   have := List.all_eq_true.mp (List.all_eq_true.mp h b hb) p hp
   simpa [hk] using this
 
-/-- the full single-rule statement is false: some documented cell of the regenerated table does not behave as
-    documented (on the pinned tree e.g. `min=3` on an `int8` field accepts 2) -/
-theorem c06_no_silent_noop_full_false : ¬ c06_no_silent_noop_full := by
-  intro h
-  have key : ∃ b ∈ tagTable, ∃ s ∈ b.singles, documented s.1 b.fty.base.cls = true ∧ s.2 ≠ expected [s.1] b.probes := by
-    decide +kernel
-  obtain ⟨b, hb, s, hs, hd, hne⟩ := key
-  exact hne (h b hb s hs hd)
-
-theorem c06_order_independent_full_false : ¬ c06_order_independent_full := by
-  intro h
-  have key : ∃ b ∈ tagTable, ∃ p ∈ b.pairs, p.2.2.1 ≠ p.2.2.2 := by decide +kernel
-  obtain ⟨b, hb, p, hp, hne⟩ := key
-  exact hne (h b hb p hp)
-
-
 /-! ### type graphs -/
 open Gozod.Tags.Graph in
-/-- the table of type graphs holds a root that does not build, a probe under a recursive edge that is
-    accepted although invalid, and a nil slice that is rejected although not `required` -/
+/-- the table of type graphs holds a probe under a recursive edge that is accepted although invalid, and a nil
+    slice that is rejected although not `required` -/
 theorem c06_graph_table_witnesses :
-    (graphTable.any fun r => !r.built) = true ∧
     (graphTable.any fun r => !rankedB r.env && r.probes.any fun p => p.2 == .acc && !Spec.vStruct r.env 0 p.1) = true ∧
     (graphTable.any fun r => rankedB r.env && r.probes.any fun p => p.2 == .rej && Spec.vStruct r.env 0 p.1) = true := by
   decide +kernel
 
+open Gozod.Tags.Graph in
 theorem c06_graph_table_full_false : ¬ c06_graph_table_full := by
   intro h
-  have hb : graphTable.all (fun r => r.built) = true := List.all_eq_true.mpr fun r hr => (h r hr).1
+  have hb : graphTable.all (fun r => r.probes.all fun p => p.2 == Obs.ofBool (Spec.vStruct r.env 0 p.1)) = true :=
+    List.all_eq_true.mpr fun r hr => List.all_eq_true.mpr fun p hp => by simpa using (h r hr).2 p hp
   revert hb
   decide +kernel
 
